@@ -87,6 +87,15 @@ func Drive(p *Property, o DriveOpts) int {
 		}(w)
 	}
 	for _, c := range chunks {
+		// a tree that already produced hundreds of violations or dozens of worker deaths is decided:
+		// skip the rest instead of paying a process restart per case
+		mu.Lock()
+		stop := len(agg.Violations) > 400 || agg.Deaths > 60
+		mu.Unlock()
+		if stop {
+			agg.Count["chunks_skipped_after_massive_failure"]++
+			continue
+		}
 		ch <- c
 	}
 	close(ch)
